@@ -3,6 +3,7 @@ package checks
 import (
 	"bytes"
 	"context"
+	"encoding/binary"
 	"fmt"
 	"sync"
 	"testing"
@@ -15,6 +16,7 @@ import (
 	"github.com/ipfs/boxo/path"
 	coreiface "github.com/ipfs/kubo/core/coreiface"
 	"github.com/ipfs/kubo/core/coreiface/options"
+	"github.com/libp2p/go-libp2p/core/host"
 	"github.com/libp2p/go-libp2p/core/peer"
 	mocknet "github.com/libp2p/go-libp2p/p2p/net/mock"
 	"go.uber.org/zap"
@@ -374,6 +376,9 @@ func keysStr(m map[string]bool) []string {
 type SendC20 struct {
 	From int `json:"from"` // 0 or 1
 	Size int `json:"size"`
+	// Trunc > 0 (directchannel only): the sender dies mid-frame — the header announces Size bytes, the last
+	// Trunc of them are never written and the stream is closed; nothing of that frame may be delivered
+	Trunc int `json:"trunc,omitempty"`
 }
 
 type CaseC20b struct {
@@ -515,7 +520,11 @@ func genC20c(rt *rapid.T) CaseC20c {
 	var c CaseC20c
 	n := rapid.IntRange(1, 6).Draw(rt, "nsends")
 	for i := 0; i < n; i++ {
-		c.Sends = append(c.Sends, SendC20{From: rapid.IntRange(0, 1).Draw(rt, "from"), Size: rapid.SampledFrom(c20Sizes).Draw(rt, "size")})
+		s := SendC20{From: rapid.IntRange(0, 1).Draw(rt, "from"), Size: rapid.SampledFrom(c20Sizes).Draw(rt, "size")}
+		if s.Size > 0 && s.Size <= directchannel.DelimitedReadMaxSize && rapid.IntRange(0, 4).Draw(rt, "dies") == 0 {
+			s.Trunc = rapid.OneOf(rapid.Just(1), rapid.Just(s.Size), rapid.IntRange(1, s.Size)).Draw(rt, "trunc")
+		}
+		c.Sends = append(c.Sends, s)
 	}
 	return c
 }
@@ -526,7 +535,7 @@ func execC20c(c CaseC20c) *Outcome {
 	defer cancel()
 	mn := mocknet.New()
 	defer mn.Close()
-	var hosts [2]interface{ ID() peer.ID }
+	var hosts [2]host.Host
 	var chs [2]iface.DirectChannel
 	ems := [2]*collectEmitter{{}, {}}
 	for i := 0; i < 2; i++ {
@@ -549,11 +558,26 @@ func execC20c(c CaseC20c) *Outcome {
 		return fail("harness: %v", err)
 	}
 	var want [2][][]byte
-	over := false
+	over, died := false, false
 	for i, s := range c.Sends {
 		data := bytes.Repeat([]byte{byte('a' + i%26)}, s.Size)
 		if err := chs[s.From].Connect(ctx, hosts[1-s.From].ID()); err != nil {
 			return fail("Connect: %v", err)
+		}
+		if s.Trunc > 0 && s.Trunc <= s.Size && s.Size <= directchannel.DelimitedReadMaxSize {
+			// the two writes of Send, the second one cut short by the sender's death
+			st, err := hosts[s.From].NewStream(ctx, hosts[1-s.From].ID(), directchannel.PROTOCOL)
+			if err != nil {
+				return fail("harness: cannot open stream: %v", err)
+			}
+			lb := make([]byte, binary.MaxVarintLen64)
+			_, _ = st.Write(lb[:binary.PutUvarint(lb, uint64(s.Size))])
+			if s.Size-s.Trunc > 0 {
+				_, _ = st.Write(data[:s.Size-s.Trunc])
+			}
+			_ = st.Close()
+			died = true
+			continue
 		}
 		err := chs[s.From].Send(ctx, hosts[1-s.From].ID(), data)
 		if s.Size > directchannel.DelimitedReadMaxSize {
@@ -607,6 +631,9 @@ func execC20c(c CaseC20c) *Outcome {
 	o.NonTrivial = true
 	if over {
 		o.Labels = append(o.Labels, "oversized-frame")
+	}
+	if died {
+		o.Labels = append(o.Labels, "sender-died-mid-frame")
 	}
 	return o
 }
